@@ -694,7 +694,7 @@ func (c *Ctx) r163() {
 			return false
 		}
 		info := pk.TypesInfo
-		for _, gname := range []string{"textBytes", "submitBytes", "getBytes", "formMimeBytes", "oneBytes", "rectBytes", "allBytes", "jsMimetypes"} {
+		for _, gname := range []string{"textBytes", "submitBytes", "getBytes", "formMimeBytes", "oneBytes", "rectBytes", "allBytes", "jsMimetypes", "onBytes"} {
 			if mentionsObj(info, y.Expr, load.Mod+"/html."+gname) {
 				return true
 			}
